@@ -120,6 +120,8 @@ def run(P, R, tier):
     cache.k4_thresholds_setter(P, R)
     check_sigma_floor(P, R)
     check_weights(P, R)
+    from ..engines import traps as _traps
+    _traps.check(P, R, ['gmm', 'kmeans', 'ivector'], scope='(gmm:(ml_gmm_m_step|map_gmm_m_step|GMMMachine\\.(variances|weights|variance_thresholds|__init__)\\b)|kmeans:(m_step|reduce_indices_means_vars|accumulate_indices_means_vars|e_step)|ivector:m_step)')
 
 
 EXPLANATION += ' Also: (SIMPLEX.init) the default weights of a new machine are n entries of 1/n; G4 accepts only configuration scalars as count floors.'
